@@ -60,6 +60,12 @@ class Ctx:
         self.rng = random.Random(seed * 1000003 + int(prop[1:]))
         self.t0 = time.time()
         self._scratch = []
+        # every temporary file of this check (ours, the library's leaked
+        # TemporaryDirectory()s, sub-processes') lives under one root that is
+        # removed at the end
+        self._tmproot = tempfile.mkdtemp(prefix="verif_%s_" % prop)
+        os.environ["TMPDIR"] = self._tmproot
+        tempfile.tempdir = self._tmproot
         self.violations = []      # (clause, sig, detail)
         self.known_hits = {}      # finding id -> count
         self.drift = []
@@ -92,6 +98,9 @@ class Ctx:
         for d in self._scratch:
             shutil.rmtree(d, ignore_errors=True)
         self._scratch = []
+        if os.path.isdir(self._tmproot):
+            for name in os.listdir(self._tmproot):
+                shutil.rmtree(os.path.join(self._tmproot, name), ignore_errors=True)
 
     def np_rng(self, salt=0):
         import numpy as np
@@ -182,6 +191,7 @@ class Ctx:
     # -- finish -----------------------------------------------------------
     def finish(self):
         self.cleanup()
+        shutil.rmtree(self._tmproot, ignore_errors=True)
         wall = time.time() - self.t0
         cov = self.cov
         cov["distinct_nontrivial"] = len(self._distinct)
